@@ -17,7 +17,7 @@ Here is a semantic property the daemon is supposed to satisfy:
   Quantified over: {p['quantifier']['text']}
   Relevant code: {', '.join(p['anchors']['files'])}
 
-Task: produce {n} DIFFERENT, independent, realistic source changes ("seeded defects"), each of which BREAKS this property while the repository still compiles and its existing test suite still passes unedited. They should look like plausible maintenance mistakes (a wrong bound or comparison, a dropped or misplaced update, a missed case, a reordered pair of statements, an early return, two sites that each look fine alone), NOT something that ordinary use would expose at once: each must need something specific to manifest — a particular multi-step sequence of operations, an unusual but legitimate input, a boundary value, a particular interleaving, a fault at a particular point. Do not touch test files of the repository. Keep each change small (a few lines). {extra}
+Task: produce {n} DIFFERENT, independent, realistic source changes ("seeded defects"), each of which BREAKS this property while the repository still compiles and its existing test suite still passes unedited. They should look like plausible maintenance mistakes (a wrong bound or comparison, a dropped or misplaced update, a missed case, a reordered pair of statements, an early return, two sites that each look fine alone), NOT something that ordinary use would expose at once: each must need something specific to manifest — a particular multi-step sequence of operations, an unusual but legitimate input, a boundary value, a particular interleaving, a fault at a particular point. Do not touch test files of the repository. Keep each change small (a few lines). NEVER use `git stash` (the stash is shared by all worktrees of the repository and other agents work in sibling worktrees): to compare with the baseline use `git diff > /tmp/seed/{pid}/out/cur.diff; git checkout -- .; ...; git apply /tmp/seed/{pid}/out/cur.diff`. {extra}
 
 For each change i (1..{n}), starting each from a clean tree (`git -C /tmp/seed/{pid} checkout -- . && git -C /tmp/seed/{pid} clean -fdq -e out`):
  1. make the change; confirm `go build ./...` and the test suite pass;
